@@ -60,6 +60,7 @@ fn main() {
         "C01" => c01::cases(&mut rng, count, tier),
         "C02" | "C03" | "C19" => cworld::cases_simple(&mut rng, count, tier, prop),
         "C15" => cworld::cases_c15(&mut rng, count, tier),
+        "C03f" => cworld::cases_c03f(&mut rng, count, tier),
         "C04" => c04::cases(&mut rng, count, tier),
         "C05" => c05::cases(&mut rng, count, tier),
         "C06" => c06::cases(&mut rng, count, tier),
